@@ -299,7 +299,8 @@ def thread_count_selects_no_code_path(ctx, cfg):
             finally:
                 load.LOG_CALLS[0] = False
             calls = [call["handle"].name for call in load.CALL_LOG]
-            res.append((_structure(r["sim"]), calls))
+            # aliasing structure of the object as the real constructor builds it (before the harness symbolises it)
+            res.append((_structure(build_sim(ctx, c)), calls))
         else:
             sim = build_sim(ctx, c)
             res.append((_structure(sim), None))
